@@ -5,7 +5,7 @@ use crate::parser::check_generics::{CheckGenerics, GetPath};
 use crate::parser::variant_descs::VariantDescs;
 use crate::parser::{process_fields, MsgAttr, MsgType};
 use crate::utils::{extract_return_type, filter_wheres, SvCasing};
-use convert_case::{Case, Casing};
+use convert_case::Case;
 use proc_macro2::TokenStream;
 use quote::{quote, ToTokens};
 use syn::fold::Fold;
